@@ -128,11 +128,25 @@ def run_case(ctx, case, out, k):
     rp = os.path.join(ctx.scratch, "race_%d_%d" % (ctx._n, k))
     env = {"GORACE": "log_path=%s exitcode=0" % rp, "VERIF_SEED": str(fr.get("seed", ctx.seed))}
     p = ctx.run([build(ctx, race=True), "free", "-ref", ref, "-n", str(fr["n"]), "-ops", str(fr["ops"]), "-runs",
-                 str(fr["runs"]), "-procs", str(fr.get("procs", 0)), "-only", fr.get("only", "")], env=env, timeout=1800)
+                 str(fr["runs"]), "-procs", str(fr.get("procs", 0)), "-only", fr.get("only", "")], env=env, timeout=1800,
+                check=False)
     lines = [l for l in p.stdout.split(b"\n") if l.strip()]
-    if len(lines) != fr["runs"]:
+    fatal = []
+    if p.returncode != 0:
+        # The Go runtime itself aborts a process on unsynchronised map access ("fatal error: concurrent map read and
+        # map write"): that is a detected data race inside ojg, not an infrastructure failure. Anything else is.
+        err = (p.stderr or b"").decode(errors="replace")
+        m = re.search(r"fatal error: (concurrent map [a-z ]+)", err)
+        if not m:
+            raise Infra("conc free failed rc=%d:\n%s" % (p.returncode, err[-3000:]))
+        block = err[m.end():].split("\n\n")[0]
+        fr_ojg = [f.group(1) for f in re.finditer(r"^(github\.com/ohler55/ojg/[^\s(]+(?:\([^)]*\)[^\s(]*)?)\(", block, re.M)]
+        top = fr_ojg[-1].replace("github.com/ohler55/ojg/", "") if fr_ojg else "caller"
+        fatal = [(top, "runtime: " + m.group(1).strip())]
+        lines = [l for l in lines if l.endswith(b"}")]      # only complete runs
+    elif len(lines) != fr["runs"]:
         raise Infra("conc free returned %d of %d runs" % (len(lines), fr["runs"]))
-    races = parse_races(rp)
+    races = parse_races(rp) + fatal
     evs = [{"e": "race", "g": 0, "a": a, "b": b, "res": "", "seq": "", "ref": 0, "now": ""} for a, b in races]
     lines.append(json.dumps({"id": 0, "mode": "races", "n": 1, "ev": evs}).encode())
     out.write(b"\n".join(lines) + b"\n")
